@@ -77,7 +77,8 @@ func H_C02_intops() {
 	case 6:
 		verif.Assume(b != 0)
 	case 4, 5:
-		verif.Assume(verif.All(b >= 0, b < 64))
+		// any non-negative count: counts of 64 and more shift everything out
+		verif.Assume(b >= 0)
 	}
 	doc := Map{"t": []any{Map{"a": a, "b": b}}}
 	got, ok := runQuery(doc, "SELECT a "+intOps[op]+" b AS v FROM t")
